@@ -144,7 +144,8 @@ theorem NSR_of_nodeOK {sg : String → Option (String × Nat)} {e : Expr} (h : A
     | _ => trivial) h
 
 theorem Inv_ext {g : Grammar} (hwf : WF F g) (hnp : NPExt F g) (body : Expr)
-    (hb : AllN (NodeOK (sigOf g)) body) (hbk : F.skip = true → AllN (NotPOK g) body)
+    (hb : AllN (NodeOK (sigOf g)) body ∨ ∃ alts, body = .optChoice alts true)
+    (hbk : F.skip = true → AllN (NotPOK (ext g body)) body)
     (ht : totalBody body = true)
     (htriv : ¬(g.lookup "WHITESPACE" = none ∧ g.lookup "COMMENT" = none)) :
     Inv F (sigOf (ext g body)) (ext g body) := by
@@ -152,8 +153,10 @@ theorem Inv_ext {g : Grammar} (hwf : WF F g) (hnp : NPExt F g) (body : Expr)
   refine ⟨fun _ => rfl, fun r hr => ?_, fun r hr hn => ?_, fun _ => ?_, fun r hr => ?_, fun hF r hr => ?_⟩
   · simp only [ext, List.mem_append, List.mem_singleton] at hr
     rcases hr with hr | rfl
-    · exact AllN.imp (NodeOK_ext g body hns) (hwf.nodes r hr)
-    · exact AllN.imp (NodeOK_ext g body hns) hb
+    · exact Or.inl (AllN.imp (NodeOK_ext g body hns) (hwf.nodes r hr))
+    · rcases hb with hb | hb
+      · exact Or.inl (AllN.imp (NodeOK_ext g body hns) hb)
+      · exact Or.inr ⟨rfl, hb⟩
   · simp only [ext, List.mem_append, List.mem_singleton] at hr
     rcases hr with hr | rfl
     · exact absurd hn (hwf.noSkip r hr)
@@ -167,10 +170,10 @@ theorem Inv_ext {g : Grammar} (hwf : WF F g) (hnp : NPExt F g) (body : Expr)
   · simp only [ext, List.mem_append, List.mem_singleton] at hr
     rcases hr with hr | rfl
     · exact hnp hF body _ (hwf.nodes r hr) (hwf.notp hF r hr)
-    · exact hnp hF body _ hb (hbk hF)
+    · exact hbk hF
 
 theorem Inv_same {g : Grammar} (hwf : WF F g) : Inv F (sigOf g) g :=
-  ⟨fun _ => rfl, hwf.nodes, fun r hr hn => absurd hn (hwf.noSkip r hr),
+  ⟨fun _ => rfl, fun r hr => Or.inl (hwf.nodes r hr), fun r hr hn => absurd hn (hwf.noSkip r hr),
    fun h => absurd hwf.fused h, fun r hr => by rw [hwf.fused] at hr; exact absurd hr (by simp), hwf.notp⟩
 
 /-- the outcome of `_optimize_skip_rule` -/
@@ -189,8 +192,8 @@ theorem fusion_sound {g : Grammar} (hwf : WF F g) (hws : FusionWS g) (hnp : NPEx
       have := List.find?_some hc
       simpa using this
     have hmem : cr ∈ g.rules := List.mem_of_find?_eq_some hc
-    refine ⟨_, Inv_ext hwf hnp (.rep cr.body) ⟨trivial, hwf.nodes cr hmem⟩
-      (fun hF => ⟨trivial, hwf.notp hF cr hmem⟩) rfl (fun h => by
+    refine ⟨_, Inv_ext hwf hnp (.rep cr.body) (Or.inl ⟨trivial, hwf.nodes cr hmem⟩)
+      (fun hF => ⟨trivial, hnp hF _ _ (hwf.nodes cr hmem) (hwf.notp hF cr hmem)⟩) rfl (fun h => by
         have : g.lookup "COMMENT" = some cr := hc
         rw [this] at h; exact absurd h.2 (by simp)), ?_⟩
     intro inp e s r he
@@ -202,7 +205,7 @@ theorem fusion_sound {g : Grammar} (hwf : WF F g) (hws : FusionWS g) (hnp : NPEx
       inp e he s r
   · rw [h]
     have hmem : wr ∈ g.rules := List.mem_of_find?_eq_some hw
-    refine ⟨_, Inv_ext hwf hnp (.optChoice alts true) trivial (fun _ => trivial) rfl (fun h => by
+    refine ⟨_, Inv_ext hwf hnp (.optChoice alts true) (Or.inr ⟨alts, rfl⟩) (fun _ => trivial) rfl (fun h => by
         have : g.lookup "WHITESPACE" = some wr := hw
         rw [this] at h; exact absurd h.1 (by simp)), ?_⟩
     intro inp e s r he
